@@ -32,6 +32,14 @@ theorem C12_text_alphabet (r : Record) :
 theorem C12_text_longer_than_bytes (r : Record) : r.size < r.toText.length := by
   rw [C12_text_length]; omega
 
+/-- The JSON form adds exactly the two quotes: at most 406 characters for a valid record. -/
+theorem C12_json_length (r : Record) : r.toJson.length = r.toText.length + 2 := by
+  simp [Record.toJson]
+
+theorem C12_json_length_le (S : Scheme) (r : Record) (h : Valid S r) : r.toJson.length ≤ 406 := by
+  have := C12_text_length_le S r h
+  rw [C12_json_length]; omega
+
 #print axioms C12_text_length
 #print axioms C12_text_length_le
 #print axioms C12_text_alphabet
